@@ -4,6 +4,9 @@
 #include "tbfglobal.hpp"
 
 #include "tbfmemorydim.hpp"
+#ifdef TBFMM_VERIF
+#include "utils/tbfverifhooks.hpp"
+#endif
 
 template <class DataType_T, long int NbRows, long int MemoryAlignementBytes = TbfDefaultMemoryAlignement>
 class TbfMemoryMultiVVector{
@@ -62,6 +65,9 @@ explicit Viewer(DataType* inPtrToData, const long int inNbItems)
         __device__ __host__
 #endif
 DataType& getItem(const long int inIdx, const long int inIdxRow){
+#ifdef TBFMM_VERIF
+            TbfVerif::CheckViewerBounds("TbfMemoryMultiVVector", inIdx, nbItems, inIdxRow, NbRows);
+#endif
             DataType* ptrToDataCol = reinterpret_cast<DataType*>(reinterpret_cast<unsigned char*>(ptrToData)+ inIdx*leadingDim);
             return ptrToDataCol[inIdxRow];
         }
@@ -88,6 +94,9 @@ long int getNbItems() const{
                             __device__ __host__
         #endif
         const DataType& getItem(const long int inIdx, const long int inIdxRow){
+#ifdef TBFMM_VERIF
+            TbfVerif::CheckViewerBounds("TbfMemoryMultiVVector", inIdx, nbItems, inIdxRow, NbRows);
+#endif
             const DataType* ptrToDataCol = reinterpret_cast<const DataType*>(reinterpret_cast<const unsigned char*>(ptrToData)+ inIdx*leadingDim);
             return ptrToDataCol[inIdxRow];
         }
